@@ -22,10 +22,11 @@ open OLP OLP.Gov OLP.Ledger
 
 /-! ## 0. The invariant holds in every reachable state -/
 
-theorem wf_init (opts : Opts) (vals : List (Addr × ValRec)) (bal : L) (ho : OptsOK opts) :
+theorem wf_init (opts : Opts) (vals : List (Addr × ValRec)) (bal : L) (ho : OptsOK opts) (hv : VotingOK opts) :
     WF (initSt opts vals bal) := by
-  refine ⟨by simp [initSt, akeys], ?_, ho, ?_, by simp [initSt], ?_⟩
+  refine ⟨by simp [initSt, akeys], ?_, ?_, ho, hv, ?_, by simp [initSt], ?_⟩
   · intro pid; exact wfi_empty
+  · intro pid p ha; simp [initSt, St.item, alookup] at ha
   · intro pid hp; simp [initSt] at hp
   · intro pid hp; simp [initSt] at hp
 
@@ -95,10 +96,10 @@ theorem expire_only_after_deadline (E : Env) (s s' : St) (op : Op) (ho : OptsOK 
 
 /-- EndBlock as a whole: an ACTIVE copy that is gone afterwards was a VOTING proposal past its
     deadline (the queue built at BeginBlock holds nothing else) -/
-theorem endblock_expiry_only_after_deadline (E : Env) (s s' : St) (w : WF s) (h : endBlock E s = some s')
-    (pid : PID) (p : Proposal) (ha : (s.item pid).active = some p) (hgone : (s'.item pid).active = none) :
+theorem endblock_expiry_only_after_deadline (E : Env) (s : St) (w : WF s)
+    (pid : PID) (p : Proposal) (ha : (s.item pid).active = some p) (hgone : ((endBlock E s).item pid).active = none) :
     p.status = .voting ∧ p.votingDeadline < s.height := by
-  rcases endBlock_active E s s' h pid with e | hm
+  rcases endBlock_active E s pid with e | hm
   · rw [e, ha] at hgone; cases hgone
   · exact (w.queue pid hm).2 p ha
 
@@ -357,9 +358,9 @@ theorem escrow_lowered_only_by_own_withdrawal_or_distribution (E : Env) (s s' : 
       · rcases hcase with ⟨_, _, _, rfl⟩ | ⟨d, src, s2, hdm, _, hs'⟩
         · simp only [toFinFailed] at hlt
           rw [St.item_setItem] at hlt; simp [hp] at hlt
-        · obtain ⟨_, _, _, _, _, _, _, _, _, hitems⟩ := distributeAndMove_items s s2 pid0 p d src hdm
+        · obtain ⟨_, _, _, _, _, _, hitems⟩ := distributeAndMove_items s s2 pid0 p d src hdm
           have h2 : s2.item pid = s.item pid := by
-            rw [item_of_upsert s s2 pid0 pid _ hitems]; simp [hp]
+            rcases hitems with ⟨_, _, _, hi⟩ | ⟨_, _, _, hi⟩ <;> (rw [item_of_upsert s s2 pid0 pid _ hi]; simp [hp])
           rcases hs' with rfl | ⟨_, _, k, v, opts', _, _, rfl⟩
           · rw [h2] at hlt; omega
           · have : ({ s2 with opts := opts', applied := s.applied ++ [pid0] } : St).item pid = s2.item pid := rfl
@@ -372,10 +373,11 @@ theorem escrow_lowered_only_by_own_withdrawal_or_distribution (E : Env) (s s' : 
 /-! ## 6. Otherwise the funds are distributed once at finalisation, never exceeding the escrow -/
 
 /-- a finalisation that distributes (the proposal was not finalised before and is in the FINALIZED
-    store afterwards): nobody is debited, the sum credited is at most the escrow total, the rest
-    is burned (≥ 0), the escrow is empty afterwards.  Forced hypotheses as read: at least one
-    validator record (else the code divides by zero, S20 — the model returns a crash and `runTx`
-    is not `.ok`), percentages of the option set not negative and ≤ 100 % in total. -/
+    store afterwards) — of a passed, a failed or an expired proposal alike: nobody is debited, the
+    sum credited is at most the escrow total, the rest is burned (≥ 0), the escrow is empty
+    afterwards.  Hypothesis as read: percentages of the option set not negative and ≤ 100 % in
+    total.  (Without a validator record the distribution is refused, see
+    `distribution_refused_without_validator_record`.) -/
 theorem distributed_once_le_contributed (E : Env) (s s' : St) (pid : PID) (w : WF s)
     (hd : ∀ t, ((s.opts.byType t).passedDist).OK ∧ ((s.opts.byType t).failedDist).OK)
     (h : runTx E s (.finalize pid) = .ok s')
@@ -391,30 +393,89 @@ theorem distributed_once_le_contributed (E : Env) (s s' : St) (pid : PID) (w : W
   · rcases hcase with ⟨_, _, _, rfl⟩ | ⟨d, src, s2, hdm, hsrc, hs'⟩
     · simp only [toFinFailed] at hafter
       rw [St.item_setItem] at hafter; simp [hf1] at hafter
-    · obtain ⟨hne, _, _, _, _, _, _, hbal, hburn, hitems⟩ := distributeAndMove_items s s2 pid p d src hdm
-      obtain ⟨hbad, htot, hfunds⟩ := deleteAll_clears (s.item pid) p.passPercent r (w.items pid) hr
-      simp only [hbad] at hitems
-      simp only [Bool.false_eq_true, if_false] at hitems
-      have hdok : d.OK := by
-        rcases hsrc with ⟨_, _, e⟩ | ⟨_, _, e⟩ <;> rw [e]
-        · exact (hd p.ptype).1
-        · exact (hd p.ptype).2
-      have hT : 0 ≤ (s.item pid).total := by
-        rw [(w.items pid).totalIsSum]; exact sumFunds_nonneg _ (w.items pid).fundsNonneg
-      obtain ⟨b1, b2, b3⟩ := payouts_bounds s.bal (cvals s.vals) p.proposer s.opts.bountyAddr
-        (s.opts.byType p.ptype).execAddr (s.item pid).total d hdok hT hne
-      have b4 := payouts_total s.bal (cvals s.vals) p.proposer s.opts.bountyAddr
-        (s.opts.byType p.ptype).execAddr (s.item pid).total d
-      have hitem2 : s2.item pid = (((s.item pid).deleteAllFunds.1.set .finalized p).del src) := by
-        rw [item_of_upsert s s2 pid pid _ hitems]; simp
-      have main : (∀ x, bal s.bal x ≤ bal s2.bal x) ∧ total s2.bal - total s.bal ≤ (s.item pid).total ∧
-          0 ≤ s2.burned - s.burned ∧ total s2.bal + (s2.burned - s.burned) = total s.bal + (s.item pid).total ∧
-          (s2.item pid).total = 0 ∧ (s2.item pid).funds = [] := by
-        rw [hbal, hburn, hitem2]
-        refine ⟨b1, b3, by omega, by omega, by simpa using htot, by simpa using hfunds⟩
-      rcases hs' with rfl | ⟨_, _, k, v, opts', _, _, rfl⟩
-      · exact main
-      · exact main
+    · obtain ⟨_, _, _, _, _, _, hitems⟩ := distributeAndMove_items s s2 pid p d src hdm
+      have hafter2 : (s2.item pid).finalized.isSome := by
+        rcases hs' with rfl | ⟨_, _, k, v, opts', _, _, rfl⟩
+        · exact hafter
+        · exact hafter
+      rcases hitems with ⟨_, _, _, hitems⟩ | ⟨hne, hbal, hburn, hitems⟩
+      · rw [item_of_upsert s s2 pid pid _ hitems] at hafter2
+        simp [hf1] at hafter2
+      · obtain ⟨hbad, htot, hfunds⟩ := deleteAll_clears (s.item pid) (w.items pid)
+          (final_funds_committed (s.item pid) p r (w.items pid) hdec hr)
+        simp only [hbad] at hitems
+        simp only [Bool.false_eq_true, if_false] at hitems
+        have hdok : d.OK := by
+          rcases hsrc with ⟨_, _, e⟩ | ⟨_, _, e⟩ <;> rw [e]
+          · exact (hd p.ptype).1
+          · exact (hd p.ptype).2
+        have hT : 0 ≤ (s.item pid).total := by
+          rw [(w.items pid).totalIsSum]; exact sumFunds_nonneg _ (w.items pid).fundsNonneg
+        obtain ⟨b1, b2, b3⟩ := payouts_bounds s.bal (cvals s.vals) p.proposer s.opts.bountyAddr
+          (s.opts.byType p.ptype).execAddr (s.item pid).total d hdok hT hne
+        have b4 := payouts_total s.bal (cvals s.vals) p.proposer s.opts.bountyAddr
+          (s.opts.byType p.ptype).execAddr (s.item pid).total d
+        have hitem2 : s2.item pid = (((s.item pid).deleteAllFunds.1.set .finalized p).del src) := by
+          rw [item_of_upsert s s2 pid pid _ hitems]; simp
+        have main : (∀ x, bal s.bal x ≤ bal s2.bal x) ∧ total s2.bal - total s.bal ≤ (s.item pid).total ∧
+            0 ≤ s2.burned - s.burned ∧ total s2.bal + (s2.burned - s.burned) = total s.bal + (s.item pid).total ∧
+            (s2.item pid).total = 0 ∧ (s2.item pid).funds = [] := by
+          rw [hbal, hburn, hitem2]
+          refine ⟨b1, b3, by omega, by omega, by simpa using htot, by simpa using hfunds⟩
+        rcases hs' with rfl | ⟨_, _, k, v, opts', _, _, rfl⟩
+        · exact main
+        · exact main
+
+/-- the former division by zero (S20) is an error branch now: without a validator record a
+    finalisation pays nothing, burns nothing and leaves the escrow as it is (the proposal is
+    marked finalise-failed) -/
+theorem distribution_refused_without_validator_record (E : Env) (s s' : St) (pid : PID)
+    (hv : cvals s.vals = []) (h : runTx E s (.finalize pid) = .ok s') :
+    s'.bal = s.bal ∧ s'.burned = s.burned ∧ (s'.item pid).total = (s.item pid).total ∧
+    (s'.item pid).funds = (s.item pid).funds ∧ (s'.item pid).finalized = (s.item pid).finalized := by
+  simp only [runTx] at h
+  rcases runFinalize_ok E s s' pid h with ⟨rfl, _⟩ | ⟨p, r, hf1, hf2, hdec, hst, hr, hcase⟩
+  · exact ⟨rfl, rfl, rfl, rfl, rfl⟩
+  · rcases hcase with ⟨_, _, _, rfl⟩ | ⟨d, src, s2, hdm, hsrc, hs'⟩
+    · simp only [toFinFailed]
+      rw [St.item_setItem]; simp
+    · obtain ⟨_, _, _, _, _, _, hitems⟩ := distributeAndMove_items s s2 pid p d src hdm
+      rcases hitems with ⟨_, hbal, hburn, hitems⟩ | ⟨hne, _⟩
+      · have h2 : s2.bal = s.bal ∧ s2.burned = s.burned ∧ (s2.item pid).total = (s.item pid).total ∧
+            (s2.item pid).funds = (s.item pid).funds ∧ (s2.item pid).finalized = (s.item pid).finalized := by
+          rw [item_of_upsert s s2 pid pid _ hitems]
+          simp [hbal, hburn]
+        rcases hs' with rfl | ⟨_, _, k, v, opts', _, _, rfl⟩
+        · exact h2
+        · exact h2
+      · exact absurd hv hne
+
+/-! ## 6b. An expired proposal does not keep its escrow: it is finalised like a failed one
+
+  `Expired it p`: the only copy is in FAILED, completed, outcome "insufficient votes", not yet
+  finalised, and the tally of its vote records — if it has any — does not pass it.
+  `Settled it p`: `p` is in FINALIZED, no longer in FAILED, total 0, no fund records. -/
+
+/-- BeginBlock queues every expired proposal for finalisation -/
+theorem expired_is_queued_for_finalisation (s : St) (h : Int) (pid : PID) (p : Proposal)
+    (hf : (s.item pid).failed = some p) (hs : p.status = .completed) (ho : p.outcome = .insufficientVotes) :
+    pid ∈ (beginBlock s h).qFinalize := beginBlock_queues_expired s h pid p hf hs ho
+
+/-- its finalisation — by the queue or by anybody's PROPOSAL_FINALIZE — succeeds as soon as there
+    is one validator record, with or without vote records: failed distribution, FINALIZED, escrow
+    empty, credits + burn = escrow; no other proposal is touched -/
+theorem expired_finalisation_succeeds (E : Env) (s : St) (pid : PID) (p : Proposal) (w : WF s)
+    (e : Expired (s.item pid) p) (hv : cvals s.vals ≠ []) :
+    ∃ s', runTx E s (.finalize pid) = .ok s' ∧ Settled (s'.item pid) p ∧
+      (∀ pid', pid' ≠ pid → s'.item pid' = s.item pid') ∧ s'.vals = s.vals ∧
+      total s'.bal + (s'.burned - s.burned) = total s.bal + (s.item pid).total :=
+  expired_finalize E s pid p w e hv
+
+/-- and EndBlock does it: whatever else the two queues hold, a queued expired proposal is
+    FINALIZED with an empty escrow when the block ends -/
+theorem endblock_finalises_expired (E : Env) (s : St) (pid : PID) (p : Proposal) (w : WF s)
+    (hq : pid ∈ s.qFinalize) (e : Expired (s.item pid) p) (hv : cvals s.vals ≠ []) :
+    Settled ((endBlock E s).item pid) p := endBlock_settles_expired E s pid p w hq e hv
 
 /-- a finalised proposal is never distributed again: finalising it once more changes nothing -/
 theorem finalize_idempotent (E : Env) (s s' : St) (pid : PID)
@@ -470,9 +531,11 @@ def bal0 : L := [("alice", 1000), ("bob", 1000), ("mallory", 50)]
 def g0 : St := { initSt (opts0 51) vals0 bal0 with height := 5 }
 
 theorem optsOK0 : OptsOK (opts0 51) := by intro t; cases t <;> decide
+theorem votingOK0 : VotingOK (opts0 51) := by intro t; cases t <;> decide
 theorem wf_g0 : WF g0 := by
-  have := wf_init (opts0 51) vals0 bal0 optsOK0
-  exact ⟨this.keys, this.items, this.opts, fun pid hp => by simp [g0, initSt] at hp, this.appliedNodup, this.appliedFinal⟩
+  have := wf_init (opts0 51) vals0 bal0 optsOK0 votingOK0
+  exact ⟨this.keys, this.items, fun pid p ha => by simp [g0, initSt, St.item, alookup] at ha, this.opts, this.voting,
+    fun pid hp => by simp [g0, initSt] at hp, this.appliedNodup, this.appliedFinal⟩
 
 /-- alice creates a general proposal (funding deadline 9, voting deadline 13) -/
 def g1 : St := run smallEnv g0 [.create "p" .general "alice" 20 9 100 13 51 "" 1]
@@ -485,8 +548,18 @@ def g4 : St := run smallEnv g3 [.beginBlock 8, .endBlock]
 /-- cancel and refund: alice cancels, then withdraws her 20 in two parts to bob and to herself -/
 def c1 : St := run smallEnv g1 [.cancel "p" "alice" 1]
 def c2 : St := run smallEnv c1 [.beginBlock 6, .withdraw "p" "alice" 5 "bob" 1, .withdraw "p" "alice" 15 "alice" 1]
-/-- … and an internal expiry (voting deadline 10, block 11) -/
+/-- … and an internal expiry (voting deadline 10, block 11), finalised in block 12 -/
 def e1 : St := run smallEnv g2 [.beginBlock 11]
+def e2 : St := run smallEnv e1 [.endBlock, .beginBlock 12]
+def pe : Proposal := { ptype := .general, status := .completed, outcome := .insufficientVotes, proposer := "alice", fundingDeadline := 9, fundingGoal := 100, votingDeadline := 10, passPercent := 51, cfg := "" }
+def e3 : St := run smallEnv e2 [.endBlock]
+/-- the same chain while no validator is marked active: voting begins with an empty snapshot -/
+def vals1 : List (Addr × ValRec) :=
+  [("v1", { power := 33, active := false, committed := true }), ("v2", { power := 67, active := false, committed := true })]
+def n0 : St := { initSt (opts0 51) vals1 bal0 with height := 5 }
+def n1 : St := run smallEnv n0 [.create "p" .general "alice" 20 9 100 13 51 "" 1, .beginBlock 6, .fund "p" "bob" 80 1, .endBlock,
+  .beginBlock 11, .endBlock, .beginBlock 12]
+def n2 : St := run smallEnv n1 [.endBlock]
 
 end OLP.Gov.Examples
 
@@ -529,6 +602,23 @@ example : ∃ s', runTx smallEnv (beginBlock g3 8) (.finalize "p") = .ok s' ∧ 
 example : (c1.item "p").queryAll.map (·.outcome) = some .cancelled ∧ (c1.item "p").total = 20 := by decide
 example : (c2.item "p").total = 0 ∧ bal c2.bal "bob" = 1005 ∧ fundAmount (c2.item "p").funds "alice" = 0 := by decide
 example : e1.qExpire = ["p"] ∧ ((step smallEnv e1 .endBlock).1.item "p").failed.map (·.outcome) = some .insufficientVotes := by decide
+
+/-- regression for the repaired locked escrow (53b7f97): the proposal that expired in block 11 is
+    queued in block 12 and finalised at its end with the failed distribution; value is conserved -/
+theorem expired_proposal_is_finalised_next_block :
+    e2.qFinalize = ["p"] ∧ (e2.item "p").total = 100 ∧
+    (e3.item "p").finalized.isSome ∧ (e3.item "p").failed = none ∧ (e3.item "p").total = 0 ∧ (e3.item "p").funds = [] ∧
+    bal e3.bal "bounty" = 50 ∧ value e3 + e3.burned = value g0 + g0.burned := by decide
+
+/-- the hypotheses of `expired_finalisation_succeeds` / `endblock_finalises_expired` are met there -/
+example : Expired (e2.item "p") pe ∧ "p" ∈ e2.qFinalize ∧ cvals e2.vals ≠ [] :=
+  ⟨⟨by decide, by decide, by decide, by decide, by decide, by decide⟩, by decide, by decide⟩
+
+/-- regression for ef9520b: voting began while no validator was active (no vote records at all);
+    the expired proposal is finalised all the same -/
+theorem expired_without_vote_records_is_finalised :
+    (n1.item "p").votes = [] ∧ (n1.item "p").failed.map (·.outcome) = some .insufficientVotes ∧ n1.qFinalize = ["p"] ∧
+    (n2.item "p").finalized.isSome ∧ (n2.item "p").total = 0 ∧ value n2 + n2.burned = value n0 + n0.burned := by decide
 
 
 
